@@ -40,7 +40,8 @@ UNITS = [
         requires=['g_clock < ' + BIG],
         assigns=['self->_cancelled'] + REC_ASSIGNS,
         ensures=[('C03', 'self->_cancelled')] + logged(2, 'self->_b0._b0._b0._b0._originId', '0', 'self->_b0._b0._b0._b0._core->logger')),
-             ['C03', 'C16', 'C18']),
+             # C02 / C07: a veto leaves the guard's own request (and its payload) alone -- the request is not in the frame
+             ['C03', 'C02', 'C07', 'C16', 'C18']),
 ]
 
 # ---- payload carriers (C07): the bytes of the payload travel with the transition
